@@ -202,6 +202,23 @@ def run(prog, rep, tier, repo):
         # D4 index range
         key = 'index-range:%sbootstrap' % RS
         _check_index_dist(rep, f, key, data)
+        # D4b index source: the bulk draw resolves to the trait default (n independent sample() calls) or to an override whose
+        # every element is such a call
+        key = 'index-source:%sbootstrap' % RS
+        for c in f.calls():
+            if c.path and short(c.path) == 'sample_n':
+                if c.path == c.decl:
+                    g = prog.func(c.path)
+                    el = eng.result_of(c.path, {1: S})[0] if g is not None else None
+                    rep.ok('index-source', key, 'indices come from the trait default Distribution1D::sample_n')
+                else:
+                    el = eng.result_of(c.path, {1: S})[0]
+                    draws_only = isinstance(el, frozenset) and not has_top(el) and all(isinstance(e, tuple) and e[0] == 'call' and e[1].endswith('Distribution>::sample') for e in el)
+                    if draws_only:
+                        rep.ok('index-source', key, 'override %s returns sample() draws only' % short(c.path))
+                    else:
+                        rep.undecided('index-source', key, 'indices come from the override %s, a second sampler implementation whose law is not decided (elements %s)' % (
+                            c.path, show_expr(el)[:120] if el is not None else '?'), site_of(c.span), proof=False)
     f = prog.func(RS + 'jackknife')
     if f is not None:
         key = 'counts:%sjackknife' % RS
@@ -248,6 +265,8 @@ def run(prog, rep, tier, repo):
     for k in eng.visited:
         rep.touch(k)
     rep.trusted.append('alea 0.2.2 i64_in_range(min, max) panics unless max > min (quoted in RNG_PRECONDITIONS)')
+    from ..chunks import check_chunk_remainder
+    check_chunk_remainder(prog, rep, 'chunk-remainder', lambda k: k.startswith('validation::resample') or 'discreteuniform' in k or k.startswith('distributions::Distribution1D'))
     return {}
 
 
